@@ -1092,11 +1092,13 @@ def lateinval_engine(pid, spec, tier, seed, workdir, res):
 
 
 OVERLAP_SCENARIOS = {
+    'C02': ['foreground-validated'],
     'C08': ['replace', 'second-variant-stored'],
     'C19': ['second-variant-stored', 'second-variant-invalidated', 'invalidated'],
     'C20': ['second-variant-stale', 'invalidated'],
 }
 OVERLAP_CODES = {
+    'C02': ['unvalidated-successor-returned'],
     'C08': ['replaced-representation-served', 'variant-lost'],
     'C19': ['orphan-after-invalidation'],
     'C20': ['revalidation-count'],
